@@ -265,6 +265,12 @@ def run(tier, seed):
     numeric = [
         ('foreign-tax-over-1116-limit', {'1099-int:0.box_6': '950.00', 'number_1099-int': '1'}, {'foreign': True}),
         ('more-payers-than-schedule-b-rows', {'number_1099-int': '20', 'box_1': '400.00'}, {}),
+        # fifteen payers of which the first fourteen stay under $1,500 and the fifteenth carries the total over it
+        ('more-interest-payers-than-schedule-b-rows-last-one-crosses-1500',
+         {'number_1099-int': '15', 'number_1099-div': '0', 'number_1099-oid': '0', 'box_1': '100.00', 'box_3': '0.00', '1099-int:14.box_1': '200.00'}, {}),
+        ('more-dividend-payers-than-schedule-b-rows-last-one-crosses-1500',
+         {'number_1099-div': '15', 'number_1099-int': '0', 'box_1a': '100.00', 'box_1b': '0.00', '1099-div:14.box_1a': '200.00', 'ordinary_dividends_incorrect': 'no',
+          'qualified_dividends_incorrect': 'no'}, {}),
     ]
     hsa = {'schedule_1_income_adjustments': 'yes', 'hsa_contribution_you': 'yes', 'hsa_contribution_spouse': 'no', 'age_under_55': 'yes',
            'hsa_full_year': 'yes', 'hdhp_plan_family': 'no', 'part_2_needed': 'no', 'part_3_needed': 'no', 'qualified_distribution': 'no',
